@@ -80,7 +80,7 @@ def g_dtok(d):
 
 
 def g_var(v):
-    return f"(mkV {gs(v['cls'])} {glist(v['head'], g_attr)} {gopt(v['data'], g_dtok)})"
+    return f"(mkV {gs(v['cls'])} {glist(v['head'], g_attr)} {gopt(v['data'], g_dtok)} {glist(v.get('tail', []), g_attr)})"
 
 
 FAM = {"plain": "FPlain", "data": "FData", "bounds": "FBounds", "coord": "FCoord"}
@@ -185,7 +185,7 @@ PROP_POOL = [("standard_name", "air_temperature"), ("standard_name", "latitude")
              ("units", "K"), ("units", "days since 2000-01-01"), ("units", "hours since 1970-1-1 00:00"),
              ("units", "not a unit"), ("units", "days since when"), ("units", ""), ("calendar", "noleap"),
              ("calendar", "360_day"), ("calendar", "martian"), ("positive", "up"),
-             ("valid_range", {"arr": [0, 100]}), ("missing_value", {"np": "float32", "v": 1e20}),
+             ("valid_range", {"arr": [0, 100]}), ("add_offset", {"np": "float32", "v": 1.5}),
              ("scale", {"np": "int16", "v": 7}), ("flag_values", {"arr": [1, 2, 4]}), ("number", 3.5), ("count", 12)]
 
 
@@ -215,7 +215,7 @@ def rand_dataspec(rng, shape=None, reftime=False):
             d["units"] = rng.choice(["m", "K", "degrees_north", "1", "not a unit", "kg m-2 s-1"])
         elif r < 0.45:
             d["calendar"] = "noleap"
-        if rng.random() < 0.15:
+        if kind in ("f8", "f4", "i4", "i8") and rng.random() < 0.15:
             d["fill"] = rng.choice([-99, 9999])
     return d
 
@@ -235,9 +235,11 @@ def rand_construct_spec(rng, t=None, shape=None, standalone=True):
     t = t or rng.choice(ARRAY_TYPES)
     spec = {"type": t, "props": rand_props(rng)}
     if rng.random() < 0.5:
-        spec["ncvar"] = rng.choice(["lat", "v1", "a_b", "time_1", "it's", "w\\z", "grp/x"])
+        spec["ncvar"] = rng.choice(["lat", "v1", "a_b", "time_1", "it's", "w\\z", "/grp/x"])
     if shape is None:
         shape = rand_shape(rng)
+    if t == "dimension_coordinate" and len(shape) != 1:
+        shape = [rng.choice([1, 2, 3, 5])]     # dimension coordinates are 1-d
     if rng.random() < 0.8:
         spec["data"] = rand_dataspec(rng, shape)
     if t in ("dimension_coordinate", "auxiliary_coordinate", "domain_ancillary") and 0 not in shape and rng.random() < 0.5:
@@ -445,9 +447,14 @@ def rand_mods(rng, tags):
 
 
 def build_cases(chk):
+    import os
     rng = chk.rng
     thorough = chk.tier == "thorough"
+    scale = float(os.environ.get("VERIF_C19_SCALE", "1"))   # development knob only
     cases = []
+
+    def N(quick, deep):
+        return max(1, int((deep if thorough else quick) * scale))
 
     def add(fam, base, mods=(), select=(), kws=None, tags=(), clash=False):
         cases.append({"fam": fam, "base": base, "mods": list(mods), "select": list(select),
@@ -480,6 +487,7 @@ def build_cases(chk):
     add("corpus", ["skeleton", {"axes": [{"size": 3, "key": "x", "ncdim": "d"}, {"size": 3, "key": "y", "ncdim": "d"}]}],
         kws=[{}], tags=["custom-keys"])
     add("corpus", ["empty", "Data"], kws=[], tags=["data-without-array"])
+    add("corpus", ["data", {"shape": [3], "kind": "f8", "inf": True}], kws=[{}], tags=["nonfinite-data"])
 
     # ---- example fields: every part, default and random keyword variants
     parts = [[], [["domain"]], [["data"]]]
@@ -488,7 +496,7 @@ def build_cases(chk):
             cls = "Field" if not sel else ("Domain" if sel[0][0] == "domain" else "Data")
             add("example", ["example", n], select=sel, kws=[{}, rand_kw(rng, cls)], tags=[f"example{n}"])
         for t in ARRAY_TYPES + ["domain_axis", "cell_method", "coordinate_reference"]:
-            for k in range(3 if not thorough else 6):
+            for k in range(2 if not thorough else 5):
                 cls = cls_of_type(t)
                 add("example-construct", ["example", n], select=[["nth", t, k]], kws=[{}, rand_kw(rng, cls)],
                     tags=[f"example{n}"])
@@ -506,9 +514,17 @@ def build_cases(chk):
                    (1, [["nth", "coordinate_reference", 0], ["attr", "datum"]]),
                    (1, [["nth", "coordinate_reference", 1], ["attr", "coordinate_conversion"]])]:
         add("example-component", ["example", n], select=sel, kws=[{}], tags=[f"example{n}"])
+    # DSG fields compressed in memory, and read back from a file written compressed
+    for n, method in [(3, "contiguous"), (3, "indexed"), (4, "indexed_contiguous")]:
+        for sel in ([], [["data"]], [["data"], ["source"]], [["domain"]], [["nth", "auxiliary_coordinate", 1]],
+                    [["nth", "auxiliary_coordinate", 1], ["data"], ["source"]]):
+            add("compressed", ["example", n], mods=[["compress", method]], select=sel, kws=[{}], tags=["compressed"])
+            add("compressed", ["readback", n, [["compress", method]]], select=sel, kws=[{}], tags=["compressed", "readback"])
+    for n in range(8):
+        add("file-array", ["readback", n], select=[["data"], ["source"]], kws=[], tags=["readback"])
 
     # ---- example fields made partial
-    for _ in range(300 if not thorough else 1500):
+    for _ in range(N(120, 500)):
         tags = set()
         n = rng.randrange(N_EXAMPLE)
         mods = rand_mods(rng, tags)
@@ -526,14 +542,14 @@ def build_cases(chk):
             add("readback", ["readback", n], select=rand_select(rng), tags=rt)
 
     # ---- ab initio fields and domains, complete and partially built
-    for _ in range(700 if not thorough else 5000):
+    for _ in range(N(400, 1800)):
         tags = set()
         sk = rand_skeleton(rng, tags)
         sel = [] if rng.random() < 0.7 else ([["domain"]] if not sk["domain"] else [])
         add("skeleton", ["skeleton", sk], select=sel, tags=tags)
 
     # ---- stand-alone constructs and data
-    for _ in range(500 if not thorough else 3000):
+    for _ in range(N(350, 1400)):
         r = rng.random()
         if r < 0.45:
             spec = rand_construct_spec(rng)
@@ -549,7 +565,7 @@ def build_cases(chk):
                                          "unlim": rng.random() < 0.3}], tags=["standalone"])
 
     # ---- malformed stream: clashing variable names (refusals), odd units
-    for _ in range(150 if not thorough else 800):
+    for _ in range(N(90, 350)):
         r = rng.random()
         if r < 0.4:
             add("clash", ["example", rng.randrange(8)], select=rng.choice([[], [["domain"]]]), clash=True, tags=["name-clash"])
@@ -642,6 +658,8 @@ def run(chk, model_ok):
     for i, c in enumerate(cases):
         c["i"] = i
 
+    import time
+    t_gen = time.time()
     nw = 14
     shards = [cases[k::nw] for k in range(nw)]
     shards = [s for s in shards if s]
@@ -655,11 +673,13 @@ def run(chk, model_ok):
             chk.fail("correspondence", "worker-crash", f"C19 worker died rc={rc}: {err[-400:]}",
                      {"correspondence": "drive/c19.py cases"})
     done = [(c, r) for c, r in zip(cases, rows) if r is not None]
+    t_impl = time.time() - t_gen
 
     stats = {"families": {}, "classes": {}, "insp_calls": 0, "cc_calls": 0, "refusals": 0, "tags": {},
              "selection_missed": 0}
     explained = set()
     desc_lits, desc_idx, cc_lits, cc_idx = [], [], [], []
+    cc_seen = set()
     seen_classes = set()
     for c, r in done:
         stats["families"][c["fam"]] = stats["families"].get(c["fam"], 0) + 1
@@ -673,6 +693,10 @@ def run(chk, model_ok):
                                 or "has no" in r["build_err"] or "no attribute" in r["build_err"]
                                 or "AttributeError" in r["build_err"] or "ValueError" in r["build_err"]):
                 stats["selection_missed"] += 1
+                continue
+            if c["fam"] == "skeleton" and r["build_err"].startswith("ValueError: Can't set"):
+                # set_construct refused the generated combination: not an object of the space
+                stats["recipes_refused_by_api"] = stats.get("recipes_refused_by_api", 0) + 1
                 continue
             chk.fail("correspondence", "harness-build", f"could not build case {c['i']}: {r['build_err']}",
                      {"correspondence": "drive/c19.py build", "input": c})
@@ -756,10 +780,16 @@ def run(chk, model_ok):
                     impl = "(Ok (" + glist(v["cmds"], g_cmd) + " : list cmd))"
                 else:
                     continue
-                cc_lits.append(f"({FIXED}, {g_abs(r['abs'])}, {g_names(v['kw'], cls)}, {impl})")
+                lit = f"({FIXED}, {g_abs(r['abs'])}, {g_names(v['kw'], cls)}, {impl})"
+                stats["cc_cases"] = stats.get("cc_cases", 0) + 1
+                if lit in cc_seen:
+                    continue   # same object, names and commands (variants differing in layout only)
+                cc_seen.add(lit)
+                cc_lits.append(lit)
                 cc_idx.append((c["i"], v["kw"]))
 
     # ---- correspondence with the model
+    t_coq = time.time()
     ncorr = 0
     if model_ok:
         bad = lib.coq_bad_indices("C19", REQ, "check_describe", desc_lits, chunk=150)
@@ -784,7 +814,7 @@ def run(chk, model_ok):
                      "a state built through the public API does not satisfy Model.inv_partial",
                      {"correspondence": "C19.Run.check_inv", "input": cases[i], "observed": rows[i].get("state")})
         bad = lib.coq_bad_indices("C19", REQ, "check_cc", cc_lits, chunk=60)
-        ncorr += len(cc_lits)
+        ncorr += stats.get("cc_cases", 0)
         for b in bad[:40]:
             i, kw = cc_idx[b]
             if i in explained:
@@ -795,6 +825,7 @@ def run(chk, model_ok):
                      {"correspondence": "C19.Run.check_cc", "input": cases[i], "kw": kw,
                       "observed": {"cc_err": v.get("cc_err"), "cmds": v.get("cmds", [])[:60]}})
 
+    t_coq = time.time() - t_coq
     # ---- reflection coverage
     exported = {k["name"]: k for k in inventory}
     uncovered = sorted(n for n, k in exported.items()
@@ -821,7 +852,11 @@ def run(chk, model_ok):
         "classes_exporting_descriptions": len(exported),
         "classes_not_instantiated": uncovered,
         "selections_without_target": stats["selection_missed"],
+        "recipes_refused_by_api": stats.get("recipes_refused_by_api", 0),
+        "distinct_command_cases_evaluated_in_coq": len(cc_lits),
         "states_outside_weak_invariant": stats.get("states_outside_weak_invariant"),
+        "seconds_driving_implementation": round(t_impl, 1),
+        "seconds_evaluating_model_in_coq": round(t_coq, 1),
         "exhaustive": False,
         "historical_refutations": "C19/Refuted.v: witnesses against the pinned commit (F19a missing axes, "
                                   "coordinate names ignored, tag of custom keys)",
